@@ -102,6 +102,12 @@ func (i *indexCache) load(key string) (NamedIndex, error) {
 func (i *indexCache) get(ctx context.Context, repoName, repoURL string, keys map[string][]byte, arch string, opts *indexOpts) (NamedIndex, error) {
 	u := IndexURL(repoURL, arch)
 
+	// A parsed (or rejected) index is only remembered for callers that would verify it the same way:
+	// what was parsed with verification off, or accepted against other keys, says nothing to a caller
+	// that verifies against these keys.
+	mode := indexVerificationMode(u, arch, keys, opts)
+	um := u + "#" + mode
+
 	ctx, span := otel.Tracer("go-apk").Start(ctx, fmt.Sprintf("indexCache.get(%q)", u))
 	defer span.End()
 
@@ -157,16 +163,16 @@ func (i *indexCache) get(ctx context.Context, repoName, repoURL string, keys map
 			return fetchAndParse(etag)
 		}
 
-		key := fmt.Sprintf("%s@%s", u, etag)
+		key := fmt.Sprintf("%s@%s#%s", u, etag, mode)
 
 		once, _ := i.onces.LoadOrStore(key, &sync.Once{})
 		once.(*sync.Once).Do(func() {
 			// If we've seen this URL before, delete any references to old indexes so we can GC them.
 			// Lock reads/writes to the map, without blocking the fetchAndParse goroutine.
 			i.etagMu.Lock()
-			prev, ok := i.urlToEtag[u]
+			prev, ok := i.urlToEtag[um]
 			if ok {
-				prevKey := fmt.Sprintf("%s@%s", u, prev)
+				prevKey := fmt.Sprintf("%s@%s#%s", u, prev, mode)
 				i.forget(prevKey)
 			}
 			i.etagMu.Unlock()
@@ -176,7 +182,7 @@ func (i *indexCache) get(ctx context.Context, repoName, repoURL string, keys map
 
 			// Record the current etag for this URL so we can GC it later.
 			i.etagMu.Lock()
-			i.urlToEtag[u] = etag
+			i.urlToEtag[um] = etag
 			i.etagMu.Unlock()
 		})
 
@@ -192,7 +198,7 @@ func (i *indexCache) get(ctx context.Context, repoName, repoURL string, keys map
 		}
 
 		mod := stat.ModTime()
-		before, ok := i.modtimes[u]
+		before, ok := i.modtimes[um]
 		if !ok || mod.After(before) {
 			b, err := os.ReadFile(u)
 			if err != nil {
@@ -201,15 +207,36 @@ func (i *indexCache) get(ctx context.Context, repoName, repoURL string, keys map
 			// If this is the first time or it has changed since the last time...
 			idx, err := parseRepositoryIndex(ctx, u, keys, arch, b, opts)
 			if err != nil {
-				i.store(u, nil, err)
+				i.store(um, nil, err)
 			} else {
-				i.store(u, NewNamedRepositoryWithIndex(repoName, repoRef.WithIndex(idx)), nil)
+				i.store(um, NewNamedRepositoryWithIndex(repoName, repoRef.WithIndex(idx)), nil)
 			}
-			i.modtimes[u] = mod
+			i.modtimes[um] = mod
 		}
 
-		return i.load(u)
+		return i.load(um)
 	}
+}
+
+// indexVerificationMode names everything, besides the bytes of the index, that the outcome of
+// parseRepositoryIndex depends on: whether the signature of this index is checked and, if it is,
+// against which keys (names and contents, exactly — not a digest of them).
+func indexVerificationMode(u, arch string, keys map[string][]byte, opts *indexOpts) string {
+	if !shouldCheckSignatureForIndex(u, arch, opts) {
+		return "unverified"
+	}
+	names := make([]string, 0, len(keys))
+	for name := range keys {
+		names = append(names, name)
+	}
+	slices.Sort(names)
+	var mode strings.Builder
+	mode.WriteString("verified")
+	for _, name := range names {
+		fmt.Fprintf(&mode, ":%d:%s:%d:", len(name), name, len(keys[name]))
+		mode.Write(keys[name])
+	}
+	return mode.String()
 }
 
 // IndexURL returns the full URL to the index file for the given repo and arch.
